@@ -202,6 +202,15 @@ macro_rules! bodies {
             cover!(x & 1 == 1 && y & 1 == 1 && x != y);
             Outcome::eq(b(<P as Float>::max(p, q)), b(p.max(q))).and(Outcome::eq(b(<P as Float>::min(p, q)), b(p.min(q))))
         }
+        /// num_traits::Signed::abs_sub ("positive difference") has no inherent twin: it must be zero when
+        /// self <= other and the inherent subtraction otherwise
+        pub fn signed_abs_sub<S: Src>(s: &mut S) -> Outcome {
+            let (x, y) = (s.$draw(), s.$draw());
+            let (p, q) = (P::from_bits(x), P::from_bits(y));
+            cover!(x & 1 == 1 && y & 1 == 1 && p.gt(q));
+            let want = if p.le(q) { P::ZERO } else { p.sub(q) };
+            Outcome::eq(b(<P as Signed>::abs_sub(&p, &q)), b(want))
+        }
         pub fn from_primitive<S: Src>(s: &mut S) -> Outcome {
             let v = s.u64();
             cover!(v > 1 << 40);
@@ -217,6 +226,42 @@ macro_rules! bodies {
                 && <P as FromPrimitive>::from_f64(f64::from_bits(v)).map(b) == Some(b(P::from_f64(f64::from_bits(v))))
                 && b(Into::<P>::into(v as i32)) == b(P::from_i32(v as i32))
                 && b(Into::<P>::into(f64::from_bits(v))) == b(P::from_f64(f64::from_bits(v)));
+            Outcome::cond(ok)
+        }
+        /// every `From` impl between the posit type and a primitive, both directions, vs the inherent conversion
+        pub fn from_into<S: Src>(s: &mut S) -> Outcome {
+            let v = s.u64();
+            let x = s.$draw();
+            let p = P::from_bits(x);
+            cover!(v > 1 << 54 && v & 1 == 1 && x & 1 == 1);
+            let ok = b(<P as From<i8>>::from(v as i8)) == b(P::from_i8(v as i8))
+                && b(<P as From<i16>>::from(v as i16)) == b(P::from_i16(v as i16))
+                && b(<P as From<i32>>::from(v as i32)) == b(P::from_i32(v as i32))
+                && b(<P as From<i64>>::from(v as i64)) == b(P::from_i64(v as i64))
+                && b(<P as From<isize>>::from(v as isize)) == b(P::from_isize(v as isize))
+                && b(<P as From<u8>>::from(v as u8)) == b(P::from_u8(v as u8))
+                && b(<P as From<u16>>::from(v as u16)) == b(P::from_u16(v as u16))
+                && b(<P as From<u32>>::from(v as u32)) == b(P::from_u32(v as u32))
+                && b(<P as From<u64>>::from(v)) == b(P::from_u64(v))
+                && b(<P as From<usize>>::from(v as usize)) == b(P::from_usize(v as usize))
+                && b(<P as From<f32>>::from(f32::from_bits(v as u32))) == b(P::from_f32(f32::from_bits(v as u32)))
+                && b(<P as From<f64>>::from(f64::from_bits(v))) == b(P::from_f64(f64::from_bits(v)))
+                && b(P::from_isize(v as isize)) == b(P::from_i64(v as i64))
+                && b(P::from_usize(v as usize)) == b(P::from_u64(v))
+                && <i8 as From<P>>::from(p) == p.to_i8()
+                && <i16 as From<P>>::from(p) == p.to_i16()
+                && <i32 as From<P>>::from(p) == p.to_i32()
+                && <i64 as From<P>>::from(p) == p.to_i64()
+                && <isize as From<P>>::from(p) == p.to_isize()
+                && <u8 as From<P>>::from(p) == p.to_u8()
+                && <u16 as From<P>>::from(p) == p.to_u16()
+                && <u32 as From<P>>::from(p) == p.to_u32()
+                && <u64 as From<P>>::from(p) == p.to_u64()
+                && <usize as From<P>>::from(p) == p.to_usize()
+                && <f32 as From<P>>::from(p).to_bits() == p.to_f32().to_bits()
+                && <f64 as From<P>>::from(p).to_bits() == p.to_f64().to_bits()
+                && p.to_isize() as i64 == p.to_i64()
+                && p.to_usize() as u64 == p.to_u64();
             Outcome::cond(ok)
         }
         pub fn constants<S: Src>(_s: &mut S) -> Outcome {
